@@ -644,7 +644,10 @@ impl BuildJob<'_> {
                     }
                 }
             }
-            if st2.is_some() {
+            if rv != EXIT_SUCCESS {
+                // The output could not be copied: there is nothing to install, and
+                // the previous target must stay as it is (it is a failed build).
+            } else if st2.is_some() {
                 // either $3 file was created *or* stdout was written to.
                 // therefore tmpfile now exists.
                 if let Err(e) = fs::rename(tmp_name, t) {
